@@ -410,14 +410,14 @@ impl Sut for V {
                         s.seek(SeekFrom::Start(*p)).map(LRes::Pos).unwrap_or_else(|e| LRes::Err(es(e)))
                     }
                     LOp::SeekCurTo { p } => {
-                        let d = *p as i64 - mpos as i64;
+                        let d = (*p as i64).wrapping_sub(mpos as i64);
                         mpos = *p;
                         s.seek(SeekFrom::Current(d)).map(LRes::Pos).unwrap_or_else(|e| LRes::Err(es(e)))
                     }
                     LOp::SeekCur0 => s.seek(SeekFrom::Current(0)).map(LRes::Pos).unwrap_or_else(|e| LRes::Err(es(e))),
                     LOp::SeekEndTo { p } => {
                         mpos = *p;
-                        s.seek(SeekFrom::End(*p as i64 - len as i64)).map(LRes::Pos).unwrap_or_else(|e| LRes::Err(es(e)))
+                        s.seek(SeekFrom::End((*p as i64).wrapping_sub(len as i64))).map(LRes::Pos).unwrap_or_else(|e| LRes::Err(es(e)))
                     }
                     LOp::Pos => s.stream_position().map(LRes::Pos).unwrap_or_else(|e| LRes::Err(es(e))),
                     LOp::Read { n } => {
@@ -425,7 +425,7 @@ impl Sut for V {
                         match s.read(&mut buf) {
                             Ok(k) => {
                                 buf.truncate(k);
-                                mpos += k as u64;
+                                mpos = mpos.saturating_add(k as u64);
                                 LRes::Bytes(buf)
                             }
                             Err(e) => LRes::Err(es(e)),
